@@ -1682,6 +1682,9 @@ class Normalizer:
             nums[0] += 1
             return ("v", 500 + nums[0])
         block = _index_loops(_param_versions(_if_convert(_ret_peephole(_query_loops(_pair_iteration(_unfold_list_comps(raw_block, fresh)))))))
+        block, aliases = _store_aliases(block)
+        if aliases:
+            self.rounds.append(aliases)
         defs = single_defs(block, keep_identity)
         for _ in range(6):
             if not defs:
@@ -1709,6 +1712,102 @@ class Normalizer:
         for defs in self.rounds:
             s = deref(s, defs)
         return s if self.identity else Sigma(raw_subst=self.mapping).apply(s)
+
+
+def _store_aliases(block: tuple):
+    """``t = e`` ; ``d[k] = t`` ; ... t ...   ==   ``d[k] = e`` ; ... d[k] ...   -- a local that only names the value just stored
+    in a container slot (the local defined once, read only in the statements that follow in the same block; the slot, the
+    container and the key left alone there, the container not handed to anything).  Returns (block, {local: slot})."""
+    def occ(x, v):
+        if isinstance(x, tuple):
+            if x == v:
+                return 1
+            return sum(occ(y, v) for y in x)
+        return 0
+
+    def subscripted(x, d):
+        """occurrences of d as the container of a subscript read / store"""
+        if isinstance(x, tuple):
+            n = 1 if (len(x) == 3 and x[0] == "s" and x[1] == d) else 0
+            return n + sum(subscripted(y, d) for y in x)
+        return 0
+
+    def vars_of(x, acc):
+        if isinstance(x, tuple):
+            if len(x) == 2 and x[0] in ("v", "p") and isinstance(x[1], int):
+                acc.add(x)
+            for y in x:
+                vars_of(y, acc)
+        return acc
+
+    def stores(x, acc):
+        """targets of every binding statement nested in x"""
+        if isinstance(x, tuple) and x:
+            if x[0] == "set" and len(x) == 3:
+                acc.append(x[1])
+            elif x[0] == "aug" and len(x) == 4:
+                acc.append(x[2])
+            elif x[0] == "mset":
+                acc.extend(x[1])
+            elif x[0] == "for" and len(x) == 5:
+                acc.append(x[1])
+            elif x[0] == "del":
+                acc.extend(x[1] if isinstance(x[1], tuple) else ())
+            elif x[0] == "with" and len(x) == 3:
+                acc.extend(i[1] for i in x[1])
+            for y in x:
+                stores(y, acc)
+        return acc
+
+    def pure_path(x):
+        return isinstance(x, tuple) and (x[:1] in (("v",), ("p",)) or (x[:1] == ("a",) and len(x) == 3 and (x[1] == ("self",) or pure_path(x[1]))))
+    aliases: dict = {}
+    whole = [block]
+
+    def rec(blk):
+        blk = list(blk)
+        i = 0
+        while i + 1 < len(blk):
+            a, b = blk[i], blk[i + 1]
+            if isinstance(a, tuple) and len(a) == 3 and a[0] == "set" and isinstance(a[1], tuple) and a[1][:1] == ("v",) \
+                    and isinstance(b, tuple) and len(b) == 3 and b[0] == "set" and b[2] == a[1] and isinstance(b[1], tuple) and b[1][:1] == ("s",) \
+                    and len(b[1]) == 3 and pure_path(b[1][1]) and not occ(b[1], a[1]):
+                v, slot = a[1], b[1]
+                d, k = slot[1], slot[2]
+                region = tuple(blk[i + 2:])
+                tg = stores(region, [])
+                kv = vars_of(k, set()) | vars_of(d, set())
+                ok = occ(whole[0], v) == 2 + occ(region, v) and occ(region, v) > 0 and not occ(a[2], v)
+                ok = ok and not any(t == v or t in kv or (isinstance(t, tuple) and t[:1] in (("tuple",), ("list",)) and (occ(t, v) or any(occ(t, x) for x in kv)))
+                                    or (isinstance(t, tuple) and t[:1] == ("s",) and t[1] == d) for t in tg)
+                ok = ok and occ(region, d) == subscripted(region, d)
+                if ok:
+                    sg = Sigma(raw_subst={v: slot})
+                    blk[i:i + 2] = [("set", slot, a[2])]
+                    blk[i + 1:] = [sg.apply(st) for st in blk[i + 1:]]
+                    aliases[v] = slot
+                    whole[0] = None       # recomputed lazily below
+                    return rec(tuple(blk))
+            i += 1
+        out = []
+        for st in blk:
+            if isinstance(st, tuple) and st:
+                if st[0] == "if" and len(st) == 4:
+                    st = ("if", st[1], rec(st[2]), rec(st[3]))
+                elif st[0] == "for" and len(st) == 5:
+                    st = ("for", st[1], st[2], rec(st[3]), rec(st[4]))
+                elif st[0] == "while" and len(st) == 4:
+                    st = ("while", st[1], rec(st[2]), rec(st[3]))
+            out.append(st)
+        return tuple(out)
+    # one alias at a time, so that the occurrence counts are those of the current block
+    for _ in range(8):
+        n0 = len(aliases)
+        whole[0] = block
+        block = rec(block)
+        if len(aliases) == n0:
+            break
+    return block, aliases
 
 
 def _if_convert(block: tuple) -> tuple:
